@@ -132,6 +132,17 @@ def closest_all(A, B, C, p):
     return best, bd, feat
 
 
+def projection_bary(A, B, C, tri, p):
+    """barycentrics (w.r.t. A,B,C of triangle tri) of the orthogonal projection of p onto the triangle's plane"""
+    a, b, c = A[tri], B[tri], C[tri]
+    n = np.cross(b - a, c - a)
+    nn = float(np.dot(n, n))
+    q = p - n * (np.dot(p - a, n) / nn)
+    b0 = float(np.dot(np.cross(c - b, q - b), n) / nn)
+    b1 = float(np.dot(np.cross(a - c, q - c), n) / nn)
+    return np.array([b0, b1, 1.0 - b0 - b1])
+
+
 def point_triangle_residual(A, B, C, tri, q):
     """distance from point q to triangle number tri (used to check 'the reported point lies on the reported triangle')"""
     pts, d, _ = closest_all(A[tri : tri + 1], B[tri : tri + 1], C[tri : tri + 1], q)
